@@ -36,7 +36,11 @@ Scopes of variables (extension: SHARED / STATIC / CONST):
   in — `linter_names.get_resolved_variable_info(scope, name).shared`, the flag the generator copies into
   `RootPath { shared }`;
 * `ProcDecl.static`: `SUB … STATIC` / `FUNCTION … STATIC` (`is_static`): all variables of the procedure
-  (parameters, result variable, locals) live in ONE persistent block per procedure;
+  (parameters, result variable, locals) live in ONE persistent block per procedure; the result variable of a
+  STATIC FUNCTION is reset to zero / empty at every call (repair 7b64dfe in /repo).  The real generator omits
+  that reset when a parameter carries the function's own (bare) name — such a parameter IS the result
+  variable; here the result variable is never a parameter (slot `n` after the `n` parameters), and the
+  serialiser answers `None` for a FUNCTION with such a parameter;
 * inside a STATIC procedure every DIM (the linter also inserts one before the first use of every undeclared
   variable) is guarded by `IsVariableDefined`: `SStmt.sdim`;
 * a use of a global `CONST` is already a literal in the linted tree (`expression_reducer`), the `CONST`
